@@ -1,56 +1,39 @@
 (* ParAnytime.v — property C05, PARALLEL half: the bounds reported by the parallel solver stay sound when the search is
-   cut off at any point.  Model: Par.v (ddo/src/implementation/solver/parallel.rs AFTER the repair of finding D3, commit
-   eb0e83b: abort_search takes the maximum over the aborting node's bound, the incumbent, the other workers'
-   upper_bounds slots and the top of the fringe).  For EVERY schedule, EVERY fuel, EVERY number of workers T >= 1,
-   EVERY feasible warm start and EVERY cutoff.  Configuration: sc_use_cache = false, sc_nodup = false (as ParProofs.v).
+   cut off at any point.  Model: Par.v (ddo/src/implementation/solver/parallel.rs after the two repairs of abort_search:
+   finding D3 -- the bound must cover the other workers' nodes and the top of the fringe -- and finding D3b -- no
+   isize::MAX sentinels, see section 8).  For EVERY schedule, EVERY fuel, EVERY number of workers T >= 1, EVERY feasible
+   warm start and EVERY cutoff.  Configuration: sc_use_cache = false, sc_nodup = false (as ParProofs.v).
 
    WHAT THE MODEL DOES AT AN ABORT (Par.par_step, case PAbort n, worker w):
-       cur  := fold over ALL slots u of p_upper_bounds (w's own slot included), from max (sp_ub n, p_lb):
-                 if u = IMAX then skip (IMAX = "idle") else max;
+       cur  := maximum over ALL slots of p_upper_bounds (w's own slot included; idle slots hold IMIN, neutral for max),
+               starting from max (sp_ub n, p_lb);
        cur' := max (cur, sp_ub (top of the fringe))   if the fringe is not empty (pq_pop_max: the top dominates the fringe);
-       p_ub := if p_ub = IMAX then cur' else max (cur', p_ub);   p_abort := true;   fringe := [];   cache cleared.
-   So a SECOND abort_search (another worker) takes a maximum that includes the previous p_ub -- unless the previous p_ub
-   is still IMAX, in which case it is OVERWRITTEN.  [abort_ub] below is this value; ex3_second_abort shows a second abort.
-
-   FINDING (residual of D3).  isize::MAX is used as a sentinel twice: "slot idle" in upper_bounds and "best_ub not
-   set".  A worker busy with a node whose bound IS isize::MAX is taken for idle, and a best_ub that was legitimately set to
-   isize::MAX is overwritten by the next abort_search.  Either way the reported upper bound can fall BELOW the optimum:
-   module Residual exhibits a problem + relaxation meeting every hypothesis of Assembly.Main (residual_premises) and a
-   finished run with best_ub = 10 < 15 = optimum (residual_unsound, C05_parallel_anytime_unconditional_refuted).  The
-   root is harmless (it is alone when it is processed); the trouble needs a CUT-SET node whose bound is isize::MAX, i.e.
-   a relaxed diagram whose best value, local bound and rough bound all saturate.  Consequently the theorem needs one
-   premise more than the sequential one (SolverCutoff.seq_anytime_sound), in one of two forms:
-     (a) KC3_lt   : one more contract on completed relaxed compilations: the bound of a cut-set node is < isize::MAX;
-     (b) par_chk  : a boolean check of the run itself: at every abort step either no OTHER worker answers for a node, or
-                    none of the bounds involved (other workers' nodes, own node, fringe top) is isize::MAX.
-   (a) is proved to imply the per-step condition [AbortOK] on every reachable state (invariant LtV); (b) is decided by
-   vm_compute on a concrete run and is what makes the instantiations below possible (no diagram-level theorem of this
-   development bounds sp_ub from above).  residual_not_KC3_lt: the Residual configuration violates (a).
+       p_ub := if p_abort then max (cur', p_ub) else cur';   p_abort := true;   fringe := [];   cache cleared.
+   So a SECOND abort_search (another worker) takes a maximum that includes the previous p_ub: the bound is kept
+   (abort_ub_old, used in abort_step; ex3_second_abort and Residual.residual_steps show it on runs).
+   [abort_ub] below is this value.
 
    STOREY 1 (abstract contracts; premises = those of ParProofs.par_optimal WITHOUT sc_cutoff cfg = 0, packaged as
    SolverCutoff.contracts / SolverCutoff.semantics: the contracts constrain only compilations whose outcome is
-   Compiled, plus the absence of a model crash for all of them):
-       par_anytime_sound            KC3_lt -> 1 <= T -> primal_okP feasible primal -> pr_end r = PFinished ->
+   Compiled, plus the absence of a model crash for all of them; NO other premise):
+       par_anytime_sound            1 <= T -> primal_okP feasible primal -> pr_end r = PFinished ->
                                       pr_crash r = false /\ pr_lb r <= pr_ub r /\
                                       (forall o, OPT = Some o -> pr_lb r <= o <= pr_ub r) /\
                                       (OPT = None -> pr_value r = None /\ pr_sol r = None) /\
                                       (forall v, pr_value r = Some v -> pr_lb r = v /\
                                            exists sol, pr_sol r = Some (sort_by dec_var_cmp sol) /\ feasible sol v) /\
                                       (pr_exact r = true -> pr_value r = OPT)
-       par_anytime_sound_checked    the same with  par_chk st_eqb cfg fuel T primal sched = true  instead of KC3_lt
-       par_anytime_sound_any_end / par_anytime_sound_checked_any_end
-                                    [sound_result r] for ANY way the run ends (POutOfFuel included: the bounds are sound
+       par_anytime_sound_any_end    [sound_result r] for ANY way the run ends (POutOfFuel included: the bounds are sound
                                     in every reachable state; only the last clause is conditional on PFinished)
    STOREY 2 (Mdd.compile, clean flavours; hypotheses of Assembly.Main / Assembly.Cutoffs; OPT = opt_enum pb):
-       C05_parallel_anytime (+ _any_end)        with par_chk;   C05_parallel_anytime_lt (+ _any_end)   with KC3_lt
-     The form requested -- the statement of C05_parallel_anytime WITHOUT the par_chk premise -- is FALSE
-     (Residual.C05_parallel_anytime_unconditional_refuted).
-   NON-VACUITY: C05_parallel_table_instances (every t_wf instance), ex3_* (3 workers, cutoff 7: three workers abort, two of
-     them sit at PAbort at the same time; lb = 3 < 7 = optimum <= 8 = ub; the first abort_search is run by the worker whose
-     own node has bound 6 < 7 -- what the pre-fix code would have reported), ex3_out_of_fuel, ex_ti_abort.
+       C05_parallel_anytime, C05_parallel_anytime_any_end      exactly the shape of Assembly.C05_sequential_anytime
+   NON-VACUITY: C05_parallel_table_instances (every t_wf instance, every cutoff / schedule / fuel), ex3_* (3 workers,
+     cutoff 7: three workers abort, two of them sit at PAbort at the same time; lb = 3 < 7 = optimum <= 8 = ub; the first
+     abort_search is run by the worker whose own node has bound 6 < 7 -- what the code before the repair of D3 would have
+     reported), ex3_out_of_fuel, ex_ti_abort; module Residual: regression for finding D3b.
    NOT DONE: Par.v has no pre-fix variant of abort_search (the only `prefix` of the development is
-     Run.tb_par_maximize_prefix = upper_bounds sized by the constructor, finding D2), so no refutation example for the
-     pre-fix D3 behaviour; ParProofs.v contains no lemma named D3_*.
+     Run.tb_par_maximize_prefix = upper_bounds sized by the constructor, finding D2), so the pre-repair behaviours (D3, D3b)
+     are described in comments only; ParProofs.v contains no lemma named D3_*.
 
    THE INVARIANT (AInv, on top of ParProofs.PInv):
      Incumbent   the incumbent is a feasible solution (any regime);
@@ -58,10 +41,9 @@
                  upper_bounds, by plain computation on the model);
      CalmV       while p_abort = false: the invariant of ParProofs.par_optimal, where a compilation that is cut short goes
                  to PAbort n and KEEPS the responsibility for n (resp); + "no exit yet -> p_ub = IMAX";
-     AbV         once p_abort = true: p_lb <= p_ub, OPT <= p_ub, and "p_ub = IMAX -> OPT <= p_lb or nobody answers for a
-                 node" (what protects the bound against the overwrite by a later abort_search).
-   abort_step: CalmV or AbV, Slots, AbortOK  ==>  AbV after abort_search (the optimum's witness is in the fringe: below
-   the top; or held by the aborting worker: its own bound; or held by another worker: that worker's slot, not skipped).
+     AbV         once p_abort = true: p_lb <= p_ub and OPT <= p_ub.
+   abort_step: CalmV or AbV, Slots  ==>  AbV after abort_search (the optimum's witness is in the fringe: below the top;
+   or held by the aborting worker: its own bound; or held by another worker: that worker's slot).
    Stdlib only, no axioms (Print Assumptions at the end). *)
 Require Import DDO.Base DDO.Fringe DDO.FringeProofs DDO.Fringe2 DDO.DP DDO.Cache DDO.Dom DDO.Mdd DDO.Solver DDO.Par.
 Require Import DDO.SolverProofs DDO.SolverCutoff DDO.ParProofs.
@@ -70,30 +52,20 @@ Import ListNotations.
 Open Scope Z_scope.
 
 (* ================================================================== 0. the fold of abort_search over upper_bounds *)
-Definition ubfold (ubs : list Z) (init : Z) : Z :=
-  fold_left (fun acc u => if u =? IMAX then acc else Z.max acc u) ubs init.
+Definition ubfold (ubs : list Z) (init : Z) : Z := fold_left (fun acc u => Z.max acc u) ubs init.
 
 Lemma ubfold_ge_init ubs : forall init, init <= ubfold ubs init.
 Proof.
   induction ubs as [|u ubs IH]; intros init; unfold ubfold; cbn [fold_left]; [lia|].
-  fold (ubfold ubs (if u =? IMAX then init else Z.max init u)).
-  specialize (IH (if u =? IMAX then init else Z.max init u)). destruct (u =? IMAX); lia.
+  fold (ubfold ubs (Z.max init u)). specialize (IH (Z.max init u)). lia.
 Qed.
 
-Lemma ubfold_ge_slot ubs : forall init w u, nth_error ubs w = Some u -> u <> IMAX -> u <= ubfold ubs init.
+Lemma ubfold_ge_slot ubs : forall init w u, nth_error ubs w = Some u -> u <= ubfold ubs init.
 Proof.
-  induction ubs as [|x ubs IH]; intros init [|w] u H Hne; cbn [nth_error] in H; try discriminate.
-  - inversion H; subst x. unfold ubfold. cbn [fold_left]. apply Z.eqb_neq in Hne. rewrite Hne.
+  induction ubs as [|x ubs IH]; intros init [|w] u H; cbn [nth_error] in H; try discriminate.
+  - inversion H; subst x. unfold ubfold. cbn [fold_left].
     fold (ubfold ubs (Z.max init u)). pose proof (ubfold_ge_init ubs (Z.max init u)). lia.
-  - unfold ubfold. cbn [fold_left]. fold (ubfold ubs (if x =? IMAX then init else Z.max init x)).
-    eapply IH; eauto.
-Qed.
-
-Lemma ubfold_IMAX ubs : forall init, ubfold ubs init = IMAX -> init = IMAX.
-Proof.
-  induction ubs as [|x ubs IH]; intros init H; unfold ubfold in H; cbn [fold_left] in H; [exact H|].
-  fold (ubfold ubs (if x =? IMAX then init else Z.max init x)) in H. apply IH in H.
-  destruct (x =? IMAX) eqn:E; [exact H|]. apply Z.eqb_neq in E. lia.
+  - unfold ubfold. cbn [fold_left]. fold (ubfold ubs (Z.max init x)). eapply IH; eauto.
 Qed.
 
 Section ParAnytime.
@@ -228,7 +200,7 @@ Section ParAnytime.
   Definition abort_ub (s : pstate) (n : subproblem) : Z :=
     let cur := ubfold (p_upper_bounds s) (Z.max (sp_ub n) (p_lb s)) in
     let cur' := match pq_pop cfg (p_simple s) with Some (t, _) => Z.max cur (sp_ub t) | None => cur end in
-    if p_ub s =? IMAX then cur' else Z.max cur' (p_ub s).
+    if p_abort s then Z.max cur' (p_ub s) else cur'.
 
   Definition ubs_spec (s : pstate) (w : nat) (s' : pstate) : Prop :=
     match nth_error (p_workers s) w with
@@ -236,7 +208,7 @@ Section ParAnytime.
         (forall x, nth_error (p_workers s') w = Some (PReadLb1 x) ->
                    p_upper_bounds s' = upd_nth w (fun _ => sp_ub x) (p_upper_bounds s)) /\
         ((forall x, nth_error (p_workers s') w <> Some (PReadLb1 x)) -> p_upper_bounds s' = p_upper_bounds s)
-    | Some (PNotify n ea) => p_crash s' = true \/ p_upper_bounds s' = upd_nth w (fun _ => IMAX) (p_upper_bounds s)
+    | Some (PNotify n ea) => p_crash s' = true \/ p_upper_bounds s' = upd_nth w (fun _ => IMIN) (p_upper_bounds s)
     | Some (PAbort n) => p_upper_bounds s' = p_upper_bounds s /\ p_ub s' = abort_ub s n
     | Some _ => p_upper_bounds s' = p_upper_bounds s
     | None => True
@@ -281,7 +253,7 @@ Section ParAnytime.
     - (* PAbort *)
       rewrite (pf_pop_simple st_eqb cfg simple_fringe). unfold abort_ub, ubfold.
       destruct (pq_pop cfg (p_simple s)) as [[t rest]|]; intros H; inversion H; subst s' st; clear H;
-        cbn [set_worker pf_clear with_fringe mk p_upper_bounds p_ub p_lb]; split; reflexivity.
+        cbn [set_worker pf_clear with_fringe mk p_upper_bounds p_ub p_lb p_abort]; split; reflexivity.
     - (* PNotify *)
       destruct (p_ongoing s) as [|k]; [intros H; inversion H; subst; left; reflexivity|].
       destruct (nth_error (p_ongoing_by_layer s) (sp_depth n)) as [[|j]|];
@@ -293,7 +265,7 @@ Section ParAnytime.
   Lemma abort_ub_cur s n :
     ubfold (p_upper_bounds s) (Z.max (sp_ub n) (p_lb s)) <= abort_ub s n.
   Proof.
-    unfold abort_ub. destruct (pq_pop cfg (p_simple s)) as [[t rest]|]; destruct (p_ub s =? IMAX); lia.
+    unfold abort_ub. destruct (pq_pop cfg (p_simple s)) as [[t rest]|]; destruct (p_abort s); lia.
   Qed.
   Lemma abort_ub_lb s n : p_lb s <= abort_ub s n.
   Proof.
@@ -303,29 +275,16 @@ Section ParAnytime.
   Proof.
     pose proof (abort_ub_cur s n). pose proof (ubfold_ge_init (p_upper_bounds s) (Z.max (sp_ub n) (p_lb s))). lia.
   Qed.
-  Lemma abort_ub_slot s n w u : nth_error (p_upper_bounds s) w = Some u -> u <> IMAX -> u <= abort_ub s n.
+  Lemma abort_ub_slot s n w u : nth_error (p_upper_bounds s) w = Some u -> u <= abort_ub s n.
   Proof.
-    intros H Hne. pose proof (abort_ub_cur s n).
-    pose proof (ubfold_ge_slot (p_upper_bounds s) (Z.max (sp_ub n) (p_lb s)) w u H Hne). lia.
+    intros H. pose proof (abort_ub_cur s n).
+    pose proof (ubfold_ge_slot (p_upper_bounds s) (Z.max (sp_ub n) (p_lb s)) w u H). lia.
   Qed.
   Lemma abort_ub_top s n t rest : pq_pop cfg (p_simple s) = Some (t, rest) -> sp_ub t <= abort_ub s n.
-  Proof. intros H. unfold abort_ub. rewrite H. destruct (p_ub s =? IMAX); lia. Qed.
-  Lemma abort_ub_old s n : p_ub s <> IMAX -> p_ub s <= abort_ub s n.
-  Proof. intros H. unfold abort_ub. apply Z.eqb_neq in H. rewrite H. lia. Qed.
-  Lemma abort_ub_IMAX s n : abort_ub s n = IMAX ->
-    sp_ub n = IMAX \/ p_lb s = IMAX \/ exists t rest, pq_pop cfg (p_simple s) = Some (t, rest) /\ sp_ub t = IMAX.
-  Proof.
-    unfold abort_ub. intros H.
-    set (cur := ubfold (p_upper_bounds s) (Z.max (sp_ub n) (p_lb s))) in *.
-    assert (Hcur : cur = IMAX -> sp_ub n = IMAX \/ p_lb s = IMAX).
-    { intros E. apply ubfold_IMAX in E. lia. }
-    assert (Hc' : match pq_pop cfg (p_simple s) with Some (t, _) => Z.max cur (sp_ub t) | None => cur end = IMAX).
-    { destruct (p_ub s =? IMAX) eqn:E; [exact H|]. apply Z.eqb_neq in E. lia. }
-    destruct (pq_pop cfg (p_simple s)) as [[t rest]|].
-    - destruct (Z.eq_dec cur IMAX) as [E|E]; [destruct (Hcur E); auto|].
-      right; right. exists t, rest. split; [reflexivity|lia].
-    - destruct (Hcur Hc'); auto.
-  Qed.
+  Proof. intros H. unfold abort_ub. rewrite H. destruct (p_abort s); lia. Qed.
+  (* a later abort_search (p_abort already set) takes the maximum with the previous best_ub *)
+  Lemma abort_ub_old s n : p_abort s = true -> p_ub s <= abort_ub s n.
+  Proof. intros H. unfold abort_ub. rewrite H. lia. Qed.
 
   (* ================================================================== 2. premises: the contracts of SolverCutoff.v
      (they constrain only compilations whose outcome is Compiled, plus the absence of a model crash) *)
@@ -387,7 +346,6 @@ Section ParAnytime.
     | _ => None
     end.
   Definition quiet (p : pc) : Prop := match p with PNotify _ true => False | _ => True end.
-  Definition AllNone (ws : list pc) : Prop := forall p, In p ws -> resp p = None.
 
   Lemma resp_busy p n : resp p = Some n -> busy_node p = Some n.
   Proof. destruct p; cbn [resp busy_node]; intros H; try discriminate; exact H. Qed.
@@ -697,27 +655,9 @@ Section ParAnytime.
       + intros n0 Hn0. destruct ea; discriminate.
   Qed.
 
-  (* ---------------- the regime after an abort: best_ub dominates the optimum and the incumbent; the clause about
-     IMAX is what keeps a LATER abort_search (of another worker) from lowering the bound: the code overwrites best_ub
-     when it still holds isize::MAX *)
-  Definition AbV (v : vw) : Prop :=
-    v_abort v = true /\ v_lb v <= v_ub v /\
-    forall o, OPT = Some o -> o <= v_ub v /\ (v_ub v = IMAX -> o <= v_lb v \/ AllNone (v_workers v)).
-
-  Lemma AbV_frame v ws0 w p p' simple' ongoing' open' obl' lb' sol' nubs' crash' :
-    AbV v -> nth_error (v_workers v) w = Some p -> (ws0 = v_workers v \/ ws0 = map wake (v_workers v)) ->
-    (resp p = None -> resp p' = None) -> v_lb v <= lb' -> lb' <= v_ub v ->
-    AbV (mkV simple' ongoing' open' obl' lb' (v_ub v) sol' nubs' true crash' (upd_nth w (fun _ => p') ws0)).
-  Proof.
-    intros (A1 & A2 & A3) Ew Hws Hr Hlb Hub. unfold AbV.
-    cbn [v_simple v_ongoing v_open v_obl v_lb v_ub v_sol v_nubs v_abort v_crash v_workers].
-    split; [reflexivity|]. split; [exact Hub|]. intros o Ho. destruct (A3 o Ho) as [B1 B2]. split; [exact B1|].
-    intros E. destruct (B2 E) as [H|H]; [left; lia|right].
-    intros q Hq. apply In_upd_nth in Hq. destruct Hq as [->|Hq].
-    - apply Hr. apply H. eapply nth_error_In; eauto.
-    - destruct Hws as [->| ->]; [apply H; exact Hq|].
-      apply in_map_iff in Hq. destruct Hq as (q0 & <- & Hq0). rewrite resp_wake. apply H. exact Hq0.
-  Qed.
+  (* ---------------- the regime after an abort: best_ub dominates the optimum and the incumbent *)
+  Definition AbV (v : @vw St) : Prop :=
+    v_abort v = true /\ v_lb v <= v_ub v /\ forall o, OPT = Some o -> o <= v_ub v.
 
   Lemma pstep_ab s w s' : PInv s -> Incumbent (p_lb s) (p_sol s) -> AbV (view s) -> pstep s w s' ->
     (forall n, nth_error (p_workers s) w <> Some (PAbort n)) -> AbV (view s').
@@ -730,59 +670,33 @@ Section ParAnytime.
     destruct HA' as (A1 & A2 & A3).
     assert (Hmub : forall ct n lb0 c ds polls m, dd_ct ct -> good n -> (sp_depth n <= nb_vars (sc_problem cfg))%nat ->
               compile st_eqb (mk_input cfg ct n lb0) 0 0 c ds polls = (m, Compiled) ->
-              p_lb s <= mub_lb (p_lb s) (mk_input cfg ct n lb0) m <= p_ub s).
+              mub_lb (p_lb s) (mk_input cfg ct n lb0) m <= p_ub s).
     { intros ct n lb0 c ds polls m Hct Hg Hd Hc. destruct HInc as [Hmin _].
       destruct (mub_lb_spec cfg (p_lb s) (mk_input cfg ct n lb0) m Hmin) as [[E1 _]|(v & Hv1 & Hv2 & E1 & _)]; rewrite E1; [lia|].
       destruct (K1c ct _ _ _ _ _ _ Hct Hg Hd Hc v Hv1) as (sol & _ & Hf).
-      destruct (feasible_le_opt_c _ _ Hf) as (o & Ho & Hle). destruct (A3 o Ho) as [B1 _]. lia. }
+      destruct (feasible_le_opt_c _ _ Hf) as (o & Ho & Hle). pose proof (A3 o Ho). lia. }
     destruct Hst as [Ew G1 G2 G3 Hv|Ew G1 Hv|Ew G1 G2 G3 Hv|x rest Ew G1 G2 G3 Hv|x rest k Ew G1 G2 G3 G4 Hv
                     |n Ew G1 Hv|n m o c ds polls Ew G1 Hc Hv|n inp m Ew Hv|n m o c ds polls Ew Hc Hv|n inp m Ew Hv
                     |n inp m op' Ew L1 L2 Hv|n ub' Ew Hv|n ea k j Ew G1 G2 Hv];
-      try congruence; rewrite Hv; unfold vW, setw; rewrite ?A1;
-      pose proof (Forall_nth_error _ _ _ _ I6 Ew) as Hok; cbn [pc_ok] in Hok.
-    - apply (AbV_frame (view s) (p_workers s) w PGetWork PExited); auto; cbn [view v_lb v_ub]; lia.
-    - apply (AbV_frame (view s) (p_workers s) w (PReadLb1 n) (PNotify n false)); auto; cbn [view v_lb v_ub]; lia.
-    - apply (AbV_frame (view s) (p_workers s) w (PReadLb1 n)); auto; try (intros; discriminate); cbn [view v_lb v_ub]; lia.
+      try congruence; rewrite Hv; unfold vW, AbV;
+      cbn [v_simple v_ongoing v_open v_obl v_lb v_ub v_sol v_nubs v_abort v_crash v_workers];
+      pose proof (Forall_nth_error _ _ _ _ I6 Ew) as Hok; cbn [pc_ok] in Hok;
+      try (split; [exact A1|]; split; [exact A2|exact A3]).
     - destruct Hok as (Hg & Hd & (lb0 & c & ds & polls & Hlb0 & -> & Hc)).
-      pose proof (Hmub Restricted _ _ _ _ _ _ (or_introl eq_refl) Hg Hd Hc).
-      apply (AbV_frame (view s) (p_workers s) w (PUpdate1 n (mk_input cfg Restricted n lb0) m)); auto;
-        try (intros; discriminate); cbn [view v_lb v_ub]; lia.
-    - apply (AbV_frame (view s) (p_workers s) w (PReadLb2 n)); auto; try (intros; discriminate); cbn [view v_lb v_ub]; lia.
+      pose proof (Hmub Restricted _ _ _ _ _ _ (or_introl eq_refl) Hg Hd Hc). auto.
     - destruct Hok as (Hg & Hd & (lb0 & c & ds & polls & Hlb0 & -> & Hc)).
-      pose proof (Hmub Relaxed _ _ _ _ _ _ (or_intror eq_refl) Hg Hd Hc).
-      apply (AbV_frame (view s) (p_workers s) w (PUpdate2 n (mk_input cfg Relaxed n lb0) m)); auto;
-        try (intros; discriminate); cbn [view v_lb v_ub]; lia.
-    - apply (AbV_frame (view s) (p_workers s) w (PEnqueue n inp m) (PNotify n false)); auto;
-        try (intros; discriminate); cbn [view v_lb v_ub]; lia.
-    - apply (AbV_frame (view s) (map wake (p_workers s)) w (PNotify n ea)); auto; try (destruct ea; reflexivity);
-        cbn [view v_lb v_ub]; lia.
+      pose proof (Hmub Relaxed _ _ _ _ _ _ (or_intror eq_refl) Hg Hd Hc). auto.
   Qed.
 
-  (* ---------------- the abort step.  abort_search treats a slot of upper_bounds that holds isize::MAX as "idle" and
-     OVERWRITES best_ub when it still holds isize::MAX.  Both shortcuts are sound only under the side condition
-     AbortOK: no OTHER worker answers for a node whose bound is isize::MAX, and if the bound of the aborting worker's
-     own node or of the top of the fringe is isize::MAX then no other worker answers for any node.  AbortOK is
-     (a) a consequence of the extra contract KC3_lt below (section 5) and (b) decidable on a concrete run
-     (abort_okb, section 6); without it the bound CAN fall below the optimum (module Residual at the end). *)
-  Definition AbortOK (s : pstate) (w : nat) (n : subproblem) : Prop :=
-    (forall w' p' n', w' <> w -> nth_error (p_workers s) w' = Some p' -> resp p' = Some n' -> sp_ub n' <> IMAX) /\
-    ((sp_ub n = IMAX \/ exists t rest, pq_pop cfg (p_simple s) = Some (t, rest) /\ sp_ub t = IMAX) ->
-     forall w' p', w' <> w -> nth_error (p_workers s) w' = Some p' -> resp p' = None).
-
-  Lemma In_upd_nth_idx {A} w (x q : A) l : In q (upd_nth w (fun _ => x) l) ->
-    q = x \/ exists w', w' <> w /\ nth_error l w' = Some q.
-  Proof.
-    intros H. apply In_nth_error in H. destruct H as [w' Hw']. destruct (Nat.eq_dec w w') as [<-|Hne].
-    - left. eapply nth_error_upd_nth_inv; eauto.
-    - right. exists w'. split; [auto|]. rewrite nth_error_upd_nth_other in Hw' by exact Hne. exact Hw'.
-  Qed.
-
+  (* ---------------- the abort step: the witness of the optimum is in the fringe (below its top, pq_pop_max), or held
+     by the aborting worker (its own bound), or held by another worker (that worker's slot of upper_bounds);
+     a later abort_search only takes a maximum with the previous best_ub *)
   Lemma abort_step s w s' n : PInv s -> Incumbent (p_lb s) (p_sol s) -> Slots s ->
     (p_abort s = false -> CalmV (view s)) -> (p_abort s = true -> AbV (view s)) ->
-    nth_error (p_workers s) w = Some (PAbort n) -> AbortOK s w n ->
+    nth_error (p_workers s) w = Some (PAbort n) ->
     pstep s w s' -> p_ub s' = abort_ub s n -> AbV (view s').
   Proof.
-    intros HI HInc HSl HCalm HAb Ew [OK1 OK2] Hst Hub.
+    intros HI HInc HSl HCalm HAb Ew Hst Hub.
     destruct Hst as [Ew' G1 G2 G3 Hv|Ew' G1 Hv|Ew' G1 G2 G3 Hv|x rest Ew' G1 G2 G3 Hv|x rest k Ew' G1 G2 G3 G4 Hv
                     |n' Ew' G1 Hv|n' m o c ds polls Ew' G1 Hc Hv|n' inp m Ew' Hv|n' m o c ds polls Ew' Hc Hv|n' inp m Ew' Hv
                     |n' inp m op' Ew' L1 L2 Hv|n' ub' Ew' Hv|n' ea k j Ew' G1 G2 Hv]; try congruence.
@@ -791,32 +705,19 @@ Section ParAnytime.
     { pose proof Hv as Hv'. apply view_proj in Hv'. destruct Hv' as (_ & _ & _ & _ & _ & V6 & _). congruence. }
     rewrite Hv. subst ub'. unfold AbV, setw.
     cbn [v_simple v_ongoing v_open v_obl v_lb v_ub v_sol v_nubs v_abort v_crash v_workers].
-    split; [reflexivity|]. split; [apply abort_ub_lb|]. intros o Ho. split.
-    - (* the new bound dominates the optimum *)
-      destruct (p_abort s) eqn:Eab.
-      + destruct (HAb eq_refl) as (_ & _ & A3). cbn [view v_lb v_ub v_workers] in A3. destruct (A3 o Ho) as [B1 B2].
-        destruct (Z.eq_dec (p_ub s) IMAX) as [E|E].
-        * destruct (B2 E) as [H|H]; [pose proof (abort_ub_lb s n); lia|].
-          exfalso. specialize (H _ (nth_error_In _ _ Ew)). discriminate.
-        * pose proof (abort_ub_old s n E). lia.
-      + destruct (HCalm eq_refl) as (_ & C4 & _). cbn [view v_simple v_lb v_workers] in C4.
-        destruct (C4 o Ho) as [Hle|(n0 & Hb & Hu & [Hn0|(p0 & Hp0 & Hr0)])].
-        * pose proof (abort_ub_lb s n). lia.
-        * destruct (pq_pop cfg (p_simple s)) as [[t rest]|] eqn:Ep.
-          2:{ apply pq_pop_none in Ep. rewrite Ep in Hn0. destruct Hn0. }
-          pose proof (pq_pop_max cfg _ _ _ Ep n0 Hn0). pose proof (abort_ub_top s n t rest Ep). lia.
-        * apply In_nth_error in Hp0. destruct Hp0 as [w' Hw']. destruct (Nat.eq_dec w' w) as [->|Hne].
-          -- assert (p0 = PAbort n) by congruence. subst p0. cbn [resp] in Hr0. inversion Hr0; subst n0.
-             pose proof (abort_ub_own s n). lia.
-          -- pose proof (HSl _ _ _ Hw' (resp_busy _ _ Hr0)) as Hslot.
-             pose proof (abort_ub_slot s n w' _ Hslot (OK1 _ _ _ Hne Hw' Hr0)). lia.
-    - (* if the new bound is isize::MAX, a later abort_search cannot lower it below the optimum *)
-      intros E. apply abort_ub_IMAX in E. destruct E as [E|[E|E]].
-      + right. intros q Hq. apply In_upd_nth_idx in Hq. destruct Hq as [->|(w' & Hne & Hw')]; [reflexivity|].
-        eapply OK2; eauto.
-      + left. pose proof (opt_in_isize_c o Ho). lia.
-      + right. intros q Hq. apply In_upd_nth_idx in Hq. destruct Hq as [->|(w' & Hne & Hw')]; [reflexivity|].
-        eapply OK2; eauto.
+    split; [reflexivity|]. split; [apply abort_ub_lb|]. intros o Ho.
+    destruct (p_abort s) eqn:Eab.
+    - destruct (HAb eq_refl) as (_ & _ & A3). cbn [view v_ub] in A3. pose proof (A3 o Ho).
+      pose proof (abort_ub_old s n Eab). lia.
+    - destruct (HCalm eq_refl) as (_ & C4 & _). cbn [view v_simple v_lb v_workers] in C4.
+      destruct (C4 o Ho) as [Hle|(n0 & Hb & Hu & [Hn0|(p0 & Hp0 & Hr0)])].
+      + pose proof (abort_ub_lb s n). lia.
+      + destruct (pq_pop cfg (p_simple s)) as [[t rest]|] eqn:Ep.
+        2:{ apply pq_pop_none in Ep. rewrite Ep in Hn0. destruct Hn0. }
+        pose proof (pq_pop_max cfg _ _ _ Ep n0 Hn0). pose proof (abort_ub_top s n t rest Ep). lia.
+      + apply In_nth_error in Hp0. destruct Hp0 as [w' Hw'].
+        pose proof (HSl _ _ _ Hw' (resp_busy _ _ Hr0)) as Hslot.
+        pose proof (abort_ub_slot s n w' _ Hslot). lia.
   Qed.
 
   (* ---------------- the whole invariant *)
@@ -824,10 +725,9 @@ Section ParAnytime.
     Incumbent (p_lb s) (p_sol s) /\ Slots s /\
     (p_abort s = false -> CalmV (view s)) /\ (p_abort s = true -> AbV (view s)).
 
-  Lemma step_ainv s w s' st : PInv s -> AInv s -> par_step st_eqb cfg s w = Some (s', st) ->
-    (forall n, nth_error (p_workers s) w = Some (PAbort n) -> AbortOK s w n) -> AInv s'.
+  Lemma step_ainv s w s' st : PInv s -> AInv s -> par_step st_eqb cfg s w = Some (s', st) -> AInv s'.
   Proof.
-    intros HI (HInc & HSl & HCalm & HAb) Hstep HOK.
+    intros HI (HInc & HSl & HCalm & HAb) Hstep.
     pose proof (step_cases _ _ _ _ HI Hstep) as Hps. pose proof (step_pinv _ _ _ HI Hps) as HI2.
     pose proof (step_ubs _ _ _ _ Hstep) as Hubs.
     split; [exact (pstep_incumbent s w s' HI HInc Hps)|]. split; [exact (pstep_slots s w s' HI HI2 HSl Hps Hubs)|].
@@ -836,7 +736,7 @@ Section ParAnytime.
     { destruct (nth_error (p_workers s) w) as [[]|]; try (right; intros; discriminate). left. eauto. }
     destruct Hcase as [[n Ew]|Hnab].
     - assert (HA : AbV (view s')).
-      { apply (abort_step s w s' n HI HInc HSl HCalm HAb Ew (HOK n Ew) Hps). unfold ubs_spec in Hubs. rewrite Ew in Hubs. apply Hubs. }
+      { apply (abort_step s w s' n HI HInc HSl HCalm HAb Ew Hps). unfold ubs_spec in Hubs. rewrite Ew in Hubs. apply Hubs. }
       split; [|intros _; exact HA]. intros E. destruct HA as [HA _]. cbn [view v_abort] in HA. congruence.
     - destruct (p_abort s) eqn:Eab.
       + assert (HA : AbV (view s')) by (exact (pstep_ab s w s' HI HInc (HAb eq_refl) Hps Hnab)).
@@ -901,7 +801,7 @@ Section ParAnytime.
       - destruct (incumbent_none _ _ HInc Ho) as [-> _]. unfold IMIN, IMAX. lia. }
     destruct (p_abort s) eqn:Eab.
     - destruct (HAb eq_refl) as (_ & A2 & A3). cbn [view v_lb v_ub v_workers] in A2, A3.
-      split; [exact I1|]. split; [exact HInc|]. split; [exact A2|]. split; [intros o Ho; apply (A3 o Ho)|]. intros _ E. congruence.
+      split; [exact I1|]. split; [exact HInc|]. split; [exact A2|]. split; [exact A3|]. intros _ E. congruence.
     - destruct (HCalm eq_refl) as (_ & C4 & C5 & C2 & C7). cbn [view v_simple v_ongoing v_lb v_ub v_workers] in C4, C5, C7.
       assert (Hexit : In PExited (p_workers s) -> forall o, OPT = Some o -> o <= p_lb s).
       { intros Hin o Ho. destruct (C5 Hin) as (E1 & E2 & E3).
@@ -920,32 +820,22 @@ Section ParAnytime.
   Qed.
 
   (* ================================================================== 4. runs *)
-  Section Run.
-    (* Q : what is known of the rest of the run; it must provide AbortOK at every abort step *)
-    Variable Q : nat -> pstate -> list nat -> option nat -> Prop.
-    Hypothesis Q_step : forall fuel s sched last w rest s' st,
-      Q (S fuel) s sched last -> PInv s -> all_exited s = false ->
-      choose (enabled s) sched last = (Some w, rest) -> par_step st_eqb cfg s w = Some (s', st) ->
-      Q fuel s' rest (Some w) /\ (forall n, nth_error (p_workers s) w = Some (PAbort n) -> AbortOK s w n).
-
-    Lemma par_run_ainv : forall fuel s sched last trace s' tr e, PInv s -> AInv s -> Q fuel s sched last ->
-      par_run st_eqb cfg fuel s sched last trace = (s', tr, e) ->
-      PInv s' /\ AInv s' /\ length (p_workers s') = length (p_workers s) /\ (e = PFinished -> all_exited s' = true).
-    Proof.
-      induction fuel as [|fuel IH]; intros s sched last trace s' tr e HI HA HQ; cbn [par_run].
-      - intros H; inversion H; subst. split; [exact HI|]. split; [exact HA|]. split; [reflexivity|discriminate].
-      - destruct (all_exited s) eqn:Eall.
-        + intros H; inversion H; subst. auto.
-        + destruct (choose (enabled s) sched last) as [[w|] rest] eqn:Ech.
-          2:{ intros H; inversion H; subst. split; [exact HI|]. split; [exact HA|]. split; [reflexivity|discriminate]. }
-          destruct (par_step st_eqb cfg s w) as [[s1 st]|] eqn:Hst.
-          2:{ intros H; inversion H; subst. split; [exact HI|]. split; [exact HA|]. split; [reflexivity|discriminate]. }
-          destruct (Q_step _ _ _ _ _ _ _ _ HQ HI Eall Ech Hst) as [HQ1 HOK].
-          pose proof (step_cases _ _ _ _ HI Hst) as Hps.
-          intros H. destruct (IH _ _ _ _ _ _ _ (step_pinv _ _ _ HI Hps) (step_ainv _ _ _ _ HI HA Hst HOK) HQ1 H) as (R1 & R2 & R3 & R4).
-          split; [exact R1|]. split; [exact R2|]. split; [|exact R4]. rewrite R3. apply pstep_workers_len with (w := w). exact Hps.
-    Qed.
-  End Run.
+  Lemma par_run_ainv : forall fuel s sched last trace s' tr e, PInv s -> AInv s ->
+    par_run st_eqb cfg fuel s sched last trace = (s', tr, e) ->
+    PInv s' /\ AInv s' /\ length (p_workers s') = length (p_workers s) /\ (e = PFinished -> all_exited s' = true).
+  Proof.
+    induction fuel as [|fuel IH]; intros s sched last trace s' tr e HI HA; cbn [par_run].
+    - intros H; inversion H; subst. split; [exact HI|]. split; [exact HA|]. split; [reflexivity|discriminate].
+    - destruct (all_exited s) eqn:Eall.
+      + intros H; inversion H; subst. auto.
+      + destruct (choose (enabled s) sched last) as [[w|] rest] eqn:Ech.
+        2:{ intros H; inversion H; subst. split; [exact HI|]. split; [exact HA|]. split; [reflexivity|discriminate]. }
+        destruct (par_step st_eqb cfg s w) as [[s1 st]|] eqn:Hst.
+        2:{ intros H; inversion H; subst. split; [exact HI|]. split; [exact HA|]. split; [reflexivity|discriminate]. }
+        pose proof (step_cases _ _ _ _ HI Hst) as Hps.
+        intros H. destruct (IH _ _ _ _ _ _ _ (step_pinv _ _ _ HI Hps) (step_ainv _ _ _ _ HI HA Hst) H) as (R1 & R2 & R3 & R4).
+        split; [exact R1|]. split; [exact R2|]. split; [|exact R4]. rewrite R3. apply pstep_workers_len with (w := w). exact Hps.
+  Qed.
 
   (* the shape of the result, for ANY way the run ends (fuel exhaustion included) *)
   Definition sound_result (r : presult) : Prop :=
@@ -984,157 +874,23 @@ Section ParAnytime.
     pose proof (view_init st_eqb cfg simple_fringe T T primal) as Hv. apply view_proj in Hv. apply Hv.
   Qed.
 
-  Lemma sound_of_run T primal fuel sched (Q : nat -> pstate -> list nat -> option nat -> Prop) :
-    (forall fuel s sched last w rest s' st,
-      Q (S fuel) s sched last -> PInv s -> all_exited s = false ->
-      choose (enabled s) sched last = (Some w, rest) -> par_step st_eqb cfg s w = Some (s', st) ->
-      Q fuel s' rest (Some w) /\ (forall n, nth_error (p_workers s) w = Some (PAbort n) -> AbortOK s w n)) ->
-    (1 <= T)%nat -> primal_okP feasible primal -> Q fuel (init_pstate st_eqb cfg T T primal) sched None ->
+  (* ================================================================== STOREY 1
+     Premises: those of ParProofs.par_optimal WITHOUT sc_cutoff cfg = 0, in the packaging of SolverCutoff.v
+     (contracts: only compilations whose outcome is Compiled are constrained, plus no model crash; semantics). *)
+  Theorem par_anytime_sound_any_end T primal fuel sched :
+    (1 <= T)%nat -> primal_okP feasible primal ->
     sound_result (par_maximize st_eqb cfg fuel T T primal sched).
   Proof.
-    intros HQ HT Hp HQ0. unfold par_maximize.
+    intros HT Hp. unfold par_maximize.
     destruct (par_run st_eqb cfg fuel (init_pstate st_eqb cfg T T primal) sched None []) as [[s' tr] e] eqn:E.
-    destruct (par_run_ainv Q HQ _ _ _ _ _ _ _ _ (PInv_init st_eqb cfg simple_fringe good good_root_c T primal)
-                (AInv_init T primal Hp) HQ0 E) as (HI & HA & Hlen & Hall).
+    destruct (par_run_ainv _ _ _ _ _ _ _ _ (PInv_init st_eqb cfg simple_fringe good good_root_c T primal)
+                (AInv_init T primal Hp) E) as (HI & HA & Hlen & Hall).
     apply sound_of_state; [|exact Hall]. apply ainv_sound; [|exact HI|exact HA].
     rewrite init_workers, repeat_length in Hlen. intros E0. rewrite E0 in Hlen. cbn [length] in Hlen. lia.
   Qed.
 
-  (* ================================================================== 5. the static side condition: one more
-     contract on completed relaxed compilations -- the bound of a cut-set node is below isize::MAX (isize::MAX is the
-     "idle" sentinel of upper_bounds and the "unset" sentinel of best_ub) *)
-  Definition KC3_lt : Prop := forall n lb c ds polls m,
-    good n -> (sp_depth n <= nb_vars (sc_problem cfg))%nat ->
-    compile st_eqb (mk_input cfg Relaxed n lb) 0 0 c ds polls = (m, Compiled) ->
-    dd_is_exact m = false ->
-    forall x, In x (drain_cutset (mk_input cfg Relaxed n lb) m) -> sp_ub x < IMAX.
-
-  (* a node whose bound is isize::MAX (the root) is alone: in the fringe with nobody answering for anything, or
-     held by the only worker that answers for something, the fringe being empty *)
-  Definition LtV (v : vw) : Prop :=
-    (forall w p n, nth_error (v_workers v) w = Some p -> resp p = Some n -> sp_ub n = IMAX ->
-       v_simple v = [] /\ forall w' p', w' <> w -> nth_error (v_workers v) w' = Some p' -> resp p' = None) /\
-    (forall n, In n (v_simple v) -> sp_ub n = IMAX -> v_simple v = [n] /\ AllNone (v_workers v)).
-
-  Lemma LtV_frame v ws0 w p p' simple' ongoing' open' obl' lb' ub' sol' nubs' abort' crash' :
-    LtV v -> nth_error (v_workers v) w = Some p -> (ws0 = v_workers v \/ ws0 = map wake (v_workers v)) ->
-    (forall n, resp p' = Some n -> resp p = Some n) -> (simple' = v_simple v \/ simple' = []) ->
-    LtV (mkV simple' ongoing' open' obl' lb' ub' sol' nubs' abort' crash' (upd_nth w (fun _ => p') ws0)).
-  Proof.
-    intros (L1 & L2) Ew Hws Hr Hsim.
-    assert (Hget : forall w' q, nth_error (upd_nth w (fun _ => p') ws0) w' = Some q ->
-              (w' = w /\ q = p') \/ (w' <> w /\ exists q0, nth_error (v_workers v) w' = Some q0 /\ resp q0 = resp q)).
-    { intros w' q Hq. destruct (Nat.eq_dec w w') as [<-|Hne].
-      - left. split; [reflexivity|]. eapply nth_error_upd_nth_inv; eauto.
-      - right. split; [auto|]. rewrite nth_error_upd_nth_other in Hq by exact Hne.
-        destruct Hws as [->| ->]; [exists q; auto|].
-        rewrite nth_error_map in Hq. destruct (nth_error (v_workers v) w') as [q0|]; [|discriminate].
-        cbn [option_map] in Hq. inversion Hq; subst q. exists q0. split; [reflexivity|]. symmetry. apply resp_wake. }
-    unfold LtV. cbn [v_simple v_ongoing v_open v_obl v_lb v_ub v_sol v_nubs v_abort v_crash v_workers]. split.
-    - intros w0 p0 n0 H0 Hr0 Hmax. destruct (Hget _ _ H0) as [[-> ->]|(Hne & q0 & Hq0 & Eq)].
-      + destruct (L1 w p n0 Ew (Hr _ Hr0) Hmax) as [S1 O1]. split; [destruct Hsim as [->| ->]; auto|].
-        intros w' p1 Hne' H1. destruct (Hget _ _ H1) as [[-> ->]|(_ & q1 & Hq1 & Eq1)]; [congruence|].
-        rewrite <- Eq1. eapply O1; eauto.
-      + rewrite <- Eq in Hr0. destruct (L1 w0 q0 n0 Hq0 Hr0 Hmax) as [S1 O1]. split; [destruct Hsim as [->| ->]; auto|].
-        intros w' p1 Hne' H1. destruct (Hget _ _ H1) as [[-> ->]|(Hne1 & q1 & Hq1 & Eq1)].
-        * destruct (resp p') as [x|] eqn:E; [|reflexivity]. specialize (Hr _ eq_refl).
-          rewrite (O1 w p Hne' Ew) in Hr. discriminate.
-        * rewrite <- Eq1. eapply O1; eauto.
-    - intros n0 Hin Hmax. destruct Hsim as [->| ->]; [|destruct Hin]. destruct (L2 n0 Hin Hmax) as [S2 A2].
-      split; [exact S2|]. intros q Hq. apply In_nth_error in Hq. destruct Hq as [w' Hw'].
-      destruct (Hget _ _ Hw') as [[-> ->]|(_ & q0 & Hq0 & Eq)].
-      + destruct (resp p') as [x|] eqn:E; [|reflexivity]. specialize (Hr _ eq_refl).
-        rewrite (A2 p (nth_error_In _ _ Ew)) in Hr. discriminate.
-      + rewrite <- Eq. apply A2. eapply nth_error_In; eauto.
-  Qed.
-
-  Lemma perm_single {A} (a x : A) rest : Permutation [a] (x :: rest) -> rest = [].
-  Proof. intros H. apply Permutation_length in H. cbn [length] in H. destruct rest; [reflexivity|cbn [length] in H; lia]. Qed.
-
-  Lemma pstep_lt s w s' : KC3_lt -> PInv s -> LtV (view s) -> pstep s w s' -> LtV (view s').
-  Proof.
-    intros HLt HI HL Hst. pose proof HI as HI'. unfold ParProofs.PInv, PInvV, view in HI'.
-    cbn [v_simple v_ongoing v_open v_obl v_lb v_ub v_sol v_nubs v_abort v_crash v_workers] in HI'.
-    destruct HI' as (I1 & I2 & I3 & I4 & I5 & I6 & I7 & I8 & I9 & I10).
-    pose proof HL as [L1 L2]. cbn [view v_simple v_workers] in L1, L2.
-    destruct Hst as [Ew G1 G2 G3 Hv|Ew G1 Hv|Ew G1 G2 G3 Hv|x rest Ew G1 G2 G3 Hv|x rest k Ew G1 G2 G3 G4 Hv
-                    |n Ew G1 Hv|n m o c ds polls Ew G1 Hc Hv|n inp m Ew Hv|n m o c ds polls Ew Hc Hv|n inp m Ew Hv
-                    |n inp m op' Ew L1' L2' Hv|n ub' Ew Hv|n ea k j Ew G1 G2 Hv];
-      rewrite Hv; unfold vW, setw;
-      pose proof (Forall_nth_error _ _ _ _ I6 Ew) as Hok; cbn [pc_ok] in Hok.
-    - apply (LtV_frame (view s) (p_workers s) w PGetWork PExited); auto; intros; discriminate.
-    - apply (LtV_frame (view s) (p_workers s) w PGetWork PExited); auto; intros; discriminate.
-    - apply (LtV_frame (view s) (p_workers s) w PGetWork PParked); auto; intros; discriminate.
-    - apply (LtV_frame (view s) (p_workers s) w PGetWork PGetWork); auto.
-    - (* item *)
-      pose proof (pq_pop_perm _ _ _ _ G2) as Hperm. destruct (pq_pop_In cfg _ _ _ G2) as [Hx Hrest].
-      unfold LtV. cbn [v_simple v_ongoing v_open v_obl v_lb v_ub v_sol v_nubs v_abort v_crash v_workers]. split.
-      + intros w0 p0 n0 H0 Hr0 Hmax. destruct (Nat.eq_dec w w0) as [<-|Hne].
-        * apply nth_error_upd_nth_inv in H0. subst p0. cbn [resp] in Hr0. inversion Hr0; subst n0.
-          destruct (L2 x Hx Hmax) as [S2 A2]. rewrite S2 in Hperm. split; [eapply perm_single; eauto|].
-          intros w' p1 Hne' H1. rewrite nth_error_upd_nth_other in H1 by auto. apply A2. eapply nth_error_In; eauto.
-        * rewrite nth_error_upd_nth_other in H0 by exact Hne. destruct (L1 _ _ _ H0 Hr0 Hmax) as [S1 _].
-          rewrite S1 in Hperm. apply Permutation_nil in Hperm. discriminate.
-      + intros n0 Hin Hmax. destruct (L2 n0 (Hrest _ Hin) Hmax) as [S2 _]. rewrite S2 in Hperm.
-        apply perm_single in Hperm. subst rest. destruct Hin.
-    - apply (LtV_frame (view s) (p_workers s) w (PReadLb1 n) (PNotify n false)); auto; intros; discriminate.
-    - apply (LtV_frame (view s) (p_workers s) w (PReadLb1 n)); auto. intros n0 Hn0. destruct o; exact Hn0.
-    - apply (LtV_frame (view s) (p_workers s) w (PUpdate1 n inp m)); auto. intros n0 Hn0.
-      destruct (dd_is_exact m); [discriminate|exact Hn0].
-    - apply (LtV_frame (view s) (p_workers s) w (PReadLb2 n)); auto. intros n0 Hn0. destruct o; exact Hn0.
-    - apply (LtV_frame (view s) (p_workers s) w (PUpdate2 n inp m)); auto. intros n0 Hn0.
-      destruct (dd_is_exact m); [discriminate|exact Hn0].
-    - (* enqueue: every node pushed has a bound below isize::MAX *)
-      destruct Hok as (Hg & Hd & (lb0 & c & ds & polls & Hlb0 & -> & Hc) & Hex & Hev).
-      unfold LtV. cbn [v_simple v_ongoing v_open v_obl v_lb v_ub v_sol v_nubs v_abort v_crash v_workers]. split.
-      + intros w0 p0 n0 H0 Hr0 Hmax. destruct (Nat.eq_dec w w0) as [<-|Hne].
-        * apply nth_error_upd_nth_inv in H0. subst p0. discriminate.
-        * rewrite nth_error_upd_nth_other in H0 by exact Hne. destruct (L1 _ _ _ H0 Hr0 Hmax) as [_ O1].
-          assert (Hne' : w <> w0) by exact Hne. specialize (O1 w _ Hne' Ew). discriminate.
-      + intros n0 Hin Hmax. exfalso. apply in_app_or in Hin. destruct Hin as [Hin|Hin].
-        * apply in_rev in Hin. apply In_kept in Hin; [|exact cfg]. destruct Hin as (c0 & Hc0 & _ & ->).
-          pose proof (HLt _ _ _ _ _ _ Hg Hd Hc Hex c0 Hc0). cbn [set_ub sp_ub] in Hmax. lia.
-        * destruct (L2 n0 Hin Hmax) as [_ A2]. specialize (A2 _ (nth_error_In _ _ Ew)). discriminate.
-    - apply (LtV_frame (view s) (p_workers s) w (PAbort n) (PNotify n true)); auto; intros; discriminate.
-    - apply (LtV_frame (view s) (map wake (p_workers s)) w (PNotify n ea)); auto. intros n0 Hn0. destruct ea; discriminate.
-  Qed.
-
-  Lemma LtV_init T primal : LtV (view (init_pstate st_eqb cfg T T primal)).
-  Proof.
-    rewrite (view_init st_eqb cfg simple_fringe). unfold LtV.
-    cbn [v_simple v_ongoing v_open v_obl v_lb v_ub v_sol v_nubs v_abort v_crash v_workers]. split.
-    - intros w p n Hw Hr. apply nth_error_In in Hw. apply repeat_spec in Hw. subst p. discriminate.
-    - intros n [<-|[]] _. split; [reflexivity|]. intros p Hp. apply repeat_spec in Hp. subst p. reflexivity.
-  Qed.
-
-  Lemma LtV_AbortOK s w n : LtV (view s) -> nth_error (p_workers s) w = Some (PAbort n) -> AbortOK s w n.
-  Proof.
-    intros [L1 L2] Ew. cbn [view v_simple v_workers] in L1, L2. split.
-    - intros w' p' n' Hne Hw' Hr' Hmax. destruct (L1 _ _ _ Hw' Hr' Hmax) as [_ O1].
-      assert (Hne' : w <> w') by auto. specialize (O1 w _ Hne' Ew). discriminate.
-    - intros [Hmax|(t & rest & Ep & Hmax)].
-      + destruct (L1 _ _ _ Ew eq_refl Hmax) as [_ O1]. exact O1.
-      + destruct (pq_pop_In cfg _ _ _ Ep) as [Ht _]. destruct (L2 t Ht Hmax) as [_ A2].
-        specialize (A2 _ (nth_error_In _ _ Ew)). discriminate.
-  Qed.
-
-  (* ================================================================== STOREY 1
-     Premises: those of ParProofs.par_optimal WITHOUT sc_cutoff cfg = 0, in the packaging of SolverCutoff.v
-     (contracts: only compilations whose outcome is Compiled are constrained, plus no model crash; semantics), and the
-     extra contract KC3_lt. *)
-  Theorem par_anytime_sound_any_end T primal fuel sched :
-    KC3_lt -> (1 <= T)%nat -> primal_okP feasible primal ->
-    sound_result (par_maximize st_eqb cfg fuel T T primal sched).
-  Proof.
-    intros HLt HT Hp.
-    apply (sound_of_run T primal fuel sched (fun _ s _ _ => LtV (view s))); [|exact HT|exact Hp|apply LtV_init].
-    intros fuel0 s sched0 last w rest s' st HL HI _ _ Hst. split.
-    - eapply pstep_lt; eauto. eapply step_cases; eauto.
-    - intros n Ew. apply LtV_AbortOK; assumption.
-  Qed.
-
   Theorem par_anytime_sound T primal fuel sched :
-    KC3_lt -> (1 <= T)%nat -> primal_okP feasible primal ->
+    (1 <= T)%nat -> primal_okP feasible primal ->
     let r := par_maximize st_eqb cfg fuel T T primal sched in
     pr_end r = PFinished ->
     pr_crash r = false /\ pr_lb r <= pr_ub r /\
@@ -1144,99 +900,8 @@ Section ParAnytime.
        pr_lb r = v /\ exists sol, pr_sol r = Some (sort_by dec_var_cmp sol) /\ feasible sol v) /\
     (pr_exact r = true -> pr_value r = OPT).
   Proof.
-    intros HLt HT Hp r He.
-    destruct (par_anytime_sound_any_end T primal fuel sched HLt HT Hp) as (A1 & A2 & A3 & A4 & A5 & A6).
-    split; [exact A1|]. split; [exact A2|]. split; [exact A3|]. split; [exact A4|]. split; [exact A5|]. exact (A6 He).
-  Qed.
-
-  (* ================================================================== 6. the same, with the side condition CHECKED ON
-     THE RUN instead of assumed of every compilation: at every abort step of the run, either no other worker answers
-     for a node, or none of the bounds involved is isize::MAX *)
-  Definition resp_none (p : pc) : bool := match resp p with None => true | Some _ => false end.
-  Definition resp_lt (p : pc) : bool := match resp p with None => true | Some n => negb (sp_ub n =? IMAX) end.
-  Definition others (f : pc -> bool) (w : nat) (ws : list pc) : bool :=
-    forallb (fun wp => Nat.eqb (fst wp) w || f (snd wp)) (combine (seq 0 (length ws)) ws).
-
-  Definition abort_okb (s : pstate) (w : nat) : bool :=
-    match nth_error (p_workers s) w with
-    | Some (PAbort n) =>
-        others resp_none w (p_workers s) ||
-        (others resp_lt w (p_workers s) && negb (sp_ub n =? IMAX) &&
-         match pq_pop cfg (p_simple s) with Some (t, _) => negb (sp_ub t =? IMAX) | None => true end)
-    | _ => true
-    end.
-
-  Lemma others_spec f w (ws : list pc) : others f w ws = true ->
-    forall w' p', w' <> w -> nth_error ws w' = Some p' -> f p' = true.
-  Proof.
-    unfold others. rewrite forallb_forall. intros H w' p' Hne Hw'.
-    assert (Hin : In (w', p') (combine (seq 0 (length ws)) ws)).
-    { assert (Hl : (w' < length ws)%nat) by (eapply nth_error_Some_lt; eauto).
-      apply (nth_error_In _ w'). 
-      assert (G : forall (l : list pc) k a, nth_error l k = Some a -> forall b, nth_error (combine (seq b (length l)) l) k = Some ((b + k)%nat, a)).
-      { induction l as [|y l IHl]; intros [|k] a Ha b; cbn in Ha; try discriminate.
-        - inversion Ha; subst. cbn. rewrite Nat.add_0_r. reflexivity.
-        - cbn [length seq combine nth_error]. rewrite (IHl k a Ha (S b)). f_equal. f_equal. lia. }
-      rewrite (G ws w' p' Hw' 0%nat). reflexivity. }
-    specialize (H _ Hin). cbn [fst snd] in H. apply Nat.eqb_neq in Hne. rewrite Hne in H. exact H.
-  Qed.
-
-  Lemma abort_okb_spec s w n : nth_error (p_workers s) w = Some (PAbort n) -> abort_okb s w = true -> AbortOK s w n.
-  Proof.
-    intros Ew H. unfold abort_okb in H. rewrite Ew in H. apply orb_true_iff in H. destruct H as [H|H].
-    - pose proof (others_spec _ _ _ H) as Hn. split.
-      + intros w' p' n' Hne Hw' Hr'. specialize (Hn _ _ Hne Hw'). unfold resp_none in Hn. rewrite Hr' in Hn. discriminate.
-      + intros _ w' p' Hne Hw'. specialize (Hn _ _ Hne Hw'). unfold resp_none in Hn. destruct (resp p'); [discriminate|reflexivity].
-    - apply andb_true_iff in H. destruct H as [H H3]. apply andb_true_iff in H. destruct H as [H1 H2].
-      pose proof (others_spec _ _ _ H1) as Hl. apply negb_true_iff in H2. apply Z.eqb_neq in H2. split.
-      + intros w' p' n' Hne Hw' Hr'. specialize (Hl _ _ Hne Hw'). unfold resp_lt in Hl. rewrite Hr' in Hl.
-        apply negb_true_iff in Hl. apply Z.eqb_neq in Hl. exact Hl.
-      + intros [E|(t & rest & Ep & E)]; [congruence|]. rewrite Ep in H3. apply negb_true_iff in H3. apply Z.eqb_neq in H3. congruence.
-  Qed.
-
-  Fixpoint par_run_chk (fuel : nat) (s : pstate) (sched : list nat) (last : option nat) : bool :=
-    match fuel with
-    | O => true
-    | S fuel' =>
-        if all_exited s then true
-        else match choose (enabled s) sched last with
-             | (None, _) => true
-             | (Some w, rest) =>
-                 abort_okb s w &&
-                 match par_step st_eqb cfg s w with
-                 | None => true
-                 | Some (s', _) => par_run_chk fuel' s' rest (Some w)
-                 end
-             end
-    end.
-  Definition par_chk (fuel T : nat) (primal : option (Z * list decision)) (sched : list nat) : bool :=
-    par_run_chk fuel (init_pstate st_eqb cfg T T primal) sched None.
-
-  Theorem par_anytime_sound_checked_any_end T primal fuel sched :
-    par_chk fuel T primal sched = true -> (1 <= T)%nat -> primal_okP feasible primal ->
-    sound_result (par_maximize st_eqb cfg fuel T T primal sched).
-  Proof.
-    intros Hchk HT Hp.
-    apply (sound_of_run T primal fuel sched (fun fuel s sched last => par_run_chk fuel s sched last = true));
-      [|exact HT|exact Hp|exact Hchk].
-    intros fuel0 s sched0 last w rest s' st HQ HI Eall Ech Hst. cbn [par_run_chk] in HQ.
-    rewrite Eall, Ech, Hst in HQ. apply andb_true_iff in HQ. destruct HQ as [H1 H2]. split; [exact H2|].
-    intros n Ew. apply abort_okb_spec; assumption.
-  Qed.
-
-  Theorem par_anytime_sound_checked T primal fuel sched :
-    par_chk fuel T primal sched = true -> (1 <= T)%nat -> primal_okP feasible primal ->
-    let r := par_maximize st_eqb cfg fuel T T primal sched in
-    pr_end r = PFinished ->
-    pr_crash r = false /\ pr_lb r <= pr_ub r /\
-    (forall o, OPT = Some o -> pr_lb r <= o <= pr_ub r) /\
-    (OPT = None -> pr_value r = None /\ pr_sol r = None) /\
-    (forall v, pr_value r = Some v ->
-       pr_lb r = v /\ exists sol, pr_sol r = Some (sort_by dec_var_cmp sol) /\ feasible sol v) /\
-    (pr_exact r = true -> pr_value r = OPT).
-  Proof.
-    intros Hchk HT Hp r He.
-    destruct (par_anytime_sound_checked_any_end T primal fuel sched Hchk HT Hp) as (A1 & A2 & A3 & A4 & A5 & A6).
+    intros HT Hp r He.
+    destruct (par_anytime_sound_any_end T primal fuel sched HT Hp) as (A1 & A2 & A3 & A4 & A5 & A6).
     split; [exact A1|]. split; [exact A2|]. split; [exact A3|]. split; [exact A4|]. split; [exact A5|]. exact (A6 He).
   Qed.
 End ParAnytime.
@@ -1292,19 +957,16 @@ Section Storey2.
     split; [exact S2|]. apply (sfeasible_feasible pb B HB guard0). exact S2.
   Qed.
 
-  (* (a) side condition checked on the run (par_chk is a boolean function of the run: vm_compute decides it) *)
   Theorem C05_parallel_anytime_any_end : forall T primal fuel sched,
     (1 <= T)%nat -> primal_okP feas primal ->
-    par_chk st_eqb cfg fuel T primal sched = true ->
     sound_result_enum (par_maximize st_eqb cfg fuel T T primal sched).
   Proof.
-    intros T primal fuel sched HT Hp Hchk. apply sound_result_to_enum.
-    exact (par_anytime_sound_checked_any_end st_eqb cfg cfg_nocache cfg_nodup good bst feas HK HSem T primal fuel sched Hchk HT Hp).
+    intros T primal fuel sched HT Hp. apply sound_result_to_enum.
+    exact (par_anytime_sound_any_end st_eqb cfg cfg_nocache cfg_nodup good bst feas HK HSem T primal fuel sched HT Hp).
   Qed.
 
   Theorem C05_parallel_anytime : forall T primal fuel sched,
     (1 <= T)%nat -> primal_okP feas primal ->
-    par_chk st_eqb cfg fuel T primal sched = true ->
     let r := par_maximize st_eqb cfg fuel T T primal sched in
     pr_end r = PFinished ->
     pr_crash r = false /\
@@ -1315,34 +977,8 @@ Section Storey2.
        pr_lb r = v /\ exists sol, pr_sol r = Some (sort_by dec_var_cmp sol) /\ feas sol v /\ MddProgress.feasible pb sol v) /\
     (pr_exact r = true -> pr_value r = opt_enum pb).
   Proof.
-    intros T primal fuel sched HT Hp Hchk r He.
-    destruct (C05_parallel_anytime_any_end T primal fuel sched HT Hp Hchk) as (A1 & A2 & A3 & A4 & A5 & A6).
-    split; [exact A1|]. split; [exact A2|]. split; [exact A3|]. split; [exact A4|]. split; [exact A5|]. exact (A6 He).
-  Qed.
-
-  (* (b) side condition assumed of every completed relaxed compilation: cut-set bounds below isize::MAX *)
-  Theorem C05_parallel_anytime_lt_any_end : forall T primal fuel sched,
-    KC3_lt st_eqb cfg good -> (1 <= T)%nat -> primal_okP feas primal ->
-    sound_result_enum (par_maximize st_eqb cfg fuel T T primal sched).
-  Proof.
-    intros T primal fuel sched HLt HT Hp. apply sound_result_to_enum.
-    exact (par_anytime_sound_any_end st_eqb cfg cfg_nocache cfg_nodup good bst feas HK HSem T primal fuel sched HLt HT Hp).
-  Qed.
-
-  Theorem C05_parallel_anytime_lt : forall T primal fuel sched,
-    KC3_lt st_eqb cfg good -> (1 <= T)%nat -> primal_okP feas primal ->
-    let r := par_maximize st_eqb cfg fuel T T primal sched in
-    pr_end r = PFinished ->
-    pr_crash r = false /\
-    pr_lb r <= pr_ub r /\
-    (forall o, opt_enum pb = Some o -> pr_lb r <= o <= pr_ub r) /\
-    (opt_enum pb = None -> pr_value r = None /\ pr_sol r = None) /\
-    (forall v, pr_value r = Some v ->
-       pr_lb r = v /\ exists sol, pr_sol r = Some (sort_by dec_var_cmp sol) /\ feas sol v /\ MddProgress.feasible pb sol v) /\
-    (pr_exact r = true -> pr_value r = opt_enum pb).
-  Proof.
-    intros T primal fuel sched HLt HT Hp r He.
-    destruct (C05_parallel_anytime_lt_any_end T primal fuel sched HLt HT Hp) as (A1 & A2 & A3 & A4 & A5 & A6).
+    intros T primal fuel sched HT Hp r He.
+    destruct (C05_parallel_anytime_any_end T primal fuel sched HT Hp) as (A1 & A2 & A3 & A4 & A5 & A6).
     split; [exact A1|]. split; [exact A2|]. split; [exact A3|]. split; [exact A4|]. split; [exact A5|]. exact (A6 He).
   Qed.
 End Storey2.
@@ -1357,19 +993,18 @@ Section TableParallel.
   Variable width : nat.
   Hypothesis Hwidth : (1 <= width)%nat.
 
-  (* every instance of the family, every cutoff, every schedule whose abort steps pass the check *)
+  (* every instance of the family, every cutoff, every schedule, every fuel *)
   Theorem C05_parallel_table_instances : forall cutoff T fuel sched,
     (1 <= T)%nat ->
-    par_chk tstate_eqb (tb_sconfig ti flv false false false width cutoff) fuel T None sched = true ->
     sound_result_enum (tb_sconfig ti flv false false false width cutoff)
       (par_maximize tstate_eqb (tb_sconfig ti flv false false false width cutoff) fuel T T None sched).
   Proof.
-    intros cutoff T fuel sched HT Hchk.
+    intros cutoff T fuel sched HT.
     destruct (table_premises ti C Hwf flv Hflv width Hwidth cutoff)
       as (P1 & P2 & P3 & P4 & P5 & P6 & P7 & P8 & P9 & P10 & P11 & P12 & P13).
     assert (Hp : primal_okP (sfeasible (t_problem ti)) None) by (intros pv psol E; discriminate).
     exact (C05_parallel_anytime_any_end tstate_eqb P1 (tb_sconfig ti flv false false false width cutoff) P2 P3 P4 P5 P6 P7 P8 P9 P10
-             (tB ti C) P12 P13 T None fuel sched HT Hp Hchk).
+             (tB ti C) P12 P13 T None fuel sched HT Hp).
   Qed.
 End TableParallel.
 
@@ -1432,9 +1067,6 @@ Example ex3_run :
     = [(2%nat, SAbortSearch); (1%nat, SAbortSearch); (0%nat, SAbortSearch)].
 Proof. vm_compute. split; reflexivity. Qed.
 
-Example ex3_chk : par_chk tstate_eqb (ex3_cfg 7) 200 3 None ex3_sched = true.
-Proof. vm_compute. reflexivity. Qed.
-
 (* the theorem applies to this run (the inequalities come from the theorem, not from the computation) ... *)
 Example ex3_by_theorem :
   pr_crash ex3_result = false /\ pr_lb ex3_result <= 7 <= pr_ub ex3_result /\
@@ -1442,7 +1074,7 @@ Example ex3_by_theorem :
      exists sol, pr_sol ex3_result = Some (sort_by dec_var_cmp sol) /\ MddProgress.feasible (t_problem ex3_ti) sol v).
 Proof.
   destruct (C05_parallel_table_instances ex3_ti 5 ex3_wf CleanLEL (or_introl eq_refl) 1 (le_n 1) 7 3 200 ex3_sched
-              (le_S _ _ (le_S _ _ (le_n 1))) ex3_chk) as (A1 & A2 & A3 & A4 & A5 & A6).
+              (le_S _ _ (le_S _ _ (le_n 1)))) as (A1 & A2 & A3 & A4 & A5 & A6).
   split; [exact A1|]. split; [exact (A3 7 ex3_opt)|].
   intros v Hv. destruct (A5 v Hv) as (_ & sol & S1 & _ & S3). exists sol. auto.
 Qed.
@@ -1456,9 +1088,8 @@ Example ex3_out_of_fuel :
   pr_end r = POutOfFuel /\ pr_lb r <= 7 <= pr_ub r.
 Proof.
   split; [vm_compute; reflexivity|].
-  assert (Hchk : par_chk tstate_eqb (ex3_cfg 7) 13 3 None ex3_sched = true) by (vm_compute; reflexivity).
   destruct (C05_parallel_table_instances ex3_ti 5 ex3_wf CleanLEL (or_introl eq_refl) 1 (le_n 1) 7 3 13 ex3_sched
-              (le_S _ _ (le_S _ _ (le_n 1))) Hchk) as (_ & _ & A3 & _).
+              (le_S _ _ (le_S _ _ (le_n 1)))) as (_ & _ & A3 & _).
   exact (A3 7 ex3_opt).
 Qed.
 
@@ -1469,25 +1100,31 @@ Example ex_ti_abort :
   (pr_end r, pr_exact r, pr_lb r, pr_ub r) = (PFinished, false, 12, IMAX) /\ pr_lb r <= 12 <= pr_ub r.
 Proof.
   split; [vm_compute; reflexivity|].
-  assert (Hchk : par_chk tstate_eqb (tb_sconfig ex_ti CleanLEL false false false 1 5) 200 2 None [] = true) by (vm_compute; reflexivity).
   destruct (C05_parallel_table_instances ex_ti 7 ex_wf CleanLEL (or_introl eq_refl) 1 (le_n 1) 5 2 200 []
-              (le_S _ _ (le_n 1)) Hchk) as (_ & _ & A3 & _).
+              (le_S _ _ (le_n 1))) as (_ & _ & A3 & _).
   exact (A3 12 ex_opt).
 Qed.
 
-(* ================================================================== 8. the side condition cannot be dropped
-   A problem and a relaxation that meet EVERY hypothesis of section Storey2 (residual_premises), on which a finished run
-   of the repaired protocol reports best_ub = 10 while the optimum is 15 (residual_unsound).
+
+(* ================================================================== 8. regression: the isize::MAX sentinels (finding D3b)
+   BEFORE the second repair of abort_search (no longer expressible: Par.v models the repaired code only) the code used
+   isize::MAX as a sentinel twice -- "slot of upper_bounds idle" (such slots were skipped in the maximum) and "best_ub not
+   set yet" (`if best_ub == MAX { best_ub = cur } else { best_ub = max(cur, best_ub) }`).  A worker busy with a node whose
+   bound IS isize::MAX was taken for idle, and a best_ub legitimately set to isize::MAX by a first abort_search was
+   OVERWRITTEN by the next one.  On the configuration below (which meets every hypothesis of section Storey2:
+   residual_premises) the pre-repair model returned, for the schedule schedR, a FINISHED run with best_lb = 6 and
+   best_ub = 10 while the optimum is 15 (reproduced on the Rust code: 2 workers, cutoff 8, bounds [6, 10]); in the other
+   abort order the bound was 10 right after the first abort_search, until worker 0's own abort_search raised it.
      states: 0 root; x0 = 0 -> X = 1 (+5), x0 = 1 -> Y = 2 (+0); X: x1 = 0 -> 3 (+1), x1 = 1 -> 6 (+0); Y: x1 = 0 -> 4 (+0);
              x2: 3 (+0), 6 (+10), 4 (+1); 9 = the merged state (covers every state, costs 5 / 1 / 10 per variable).
      relaxation: merge = 9, rough bound = isize::MAX, relax = isize::MAX on the edges that leave X (any over-estimate
              is a valid relaxation), the cost itself elsewhere.
    Width 1: the root's restricted diagram says 6, its cut-set is X (bound isize::MAX) and Y (bound 10); the optimum 15 is
-   under X.  Two workers; worker 0 takes X, worker 1 takes Y; cutoff 7 cuts both compilations.
-     - worker 0 runs abort_search first: best_ub = isize::MAX (its own bound);
-     - worker 1 runs abort_search second: best_ub still holds isize::MAX, so the code OVERWRITES it with
-       max (10, best_lb = 6, slots other than isize::MAX) = 10 -- upper_bounds[0] = isize::MAX is read as "idle".
-   (In the other order the first abort_search already yields 10: residual_transient.) *)
+   under X.  Two workers; worker 0 takes X, worker 1 takes Y; cutoff 7 cuts both compilations; worker 0 runs abort_search
+   first, worker 1 second.
+   AFTER the repair (idle slots hold isize::MIN, the maximum runs over every slot, the first abort_search is recognised by
+   abort_proof being unset): the same run reports best_ub = isize::MAX >= 15 (residual_regression, by computation), and
+   C05_parallel_anytime applies to it (residual_by_theorem). *)
 Module Residual.
   Definition costR (s : Z) (d : decision) : Z :=
     match d_var d with
@@ -1577,7 +1214,7 @@ Module Residual.
       apply hstar_bound in Hh. cbn [nb_vars pbR] in Hh. unfold IMAX. lia.
   Qed.
 
-  (* all the hypotheses of section Storey2 (those of Assembly.Main), with B = 100 *)
+  (* all the hypotheses of section Storey2 (those of Assembly.Main), with B = 100: the theorem applies to this configuration *)
   Theorem residual_premises k :
     (forall a b, Z.eqb a b = true <-> a = b) /\
     (sc_flavour (cfgR k) = CleanLEL \/ sc_flavour (cfgR k) = CleanFC) /\
@@ -1615,42 +1252,40 @@ Module Residual.
   (* worker 0: root (7 transitions); workers 0, 1 take X, Y; both compilations are cut; abort_search of 0, then of 1 *)
   Definition schedR : list nat := [0;0;0;0;0;0;0; 0;1; 0;1; 0;1]%nat.
 
-  Example residual_unsound :
+  Example residual_regression :
     let r := par_maximize Z.eqb (cfgR 7) 200 2 2 None schedR in
-    (pr_end r, pr_exact r, pr_crash r, pr_lb r, pr_ub r) = (PFinished, false, false, 6, 10) /\
-    par_chk Z.eqb (cfgR 7) 200 2 None schedR = false.
-  Proof. vm_compute. split; reflexivity. Qed.
+    (pr_end r, pr_exact r, pr_crash r, pr_lb r, pr_ub r, pr_value r) = (PFinished, false, false, 6, IMAX, Some 6).
+  Proof. vm_compute. reflexivity. Qed.
 
-  (* the other order: worker 1 (node Y, bound 10) aborts while worker 0 holds X; upper_bounds[0] = isize::MAX is
-     skipped and the bound is 10 < 15 until worker 0's own abort_search raises it to isize::MAX *)
-  Example residual_transient :
+  (* (upper_bounds, abort flag, best_lb, best_ub) after k transitions: worker 0's abort_search (transition 12) sets
+     best_ub = isize::MAX, worker 1's (transition 13) takes the maximum with it instead of overwriting it *)
+  Definition afterR (k : nat) :=
+    let '(s, _, _) := par_run Z.eqb (cfgR 7) k (init_pstate Z.eqb (cfgR 7) 2 2 None) schedR None [] in
+    (p_upper_bounds s, p_abort s, p_lb s, p_ub s).
+  Example residual_steps :
+    afterR 11 = ([IMAX; 10], false, 6, IMAX) /\ afterR 12 = ([IMAX; 10], true, 6, IMAX) /\
+    afterR 13 = ([IMAX; 10], true, 6, IMAX) /\ afterR 15 = ([IMIN; IMIN], true, 6, IMAX).
+  Proof. vm_compute. repeat split; reflexivity. Qed.
+
+  (* the other abort order (worker 1 first, while worker 0 holds X): upper_bounds[0] = isize::MAX is no longer skipped *)
+  Example residual_regression_other_order :
     let r := par_maximize Z.eqb (cfgR 7) 12 2 2 None [0;0;0;0;0;0;0; 0;1; 0;1; 1]%nat in
-    (pr_end r, pr_exact r, pr_lb r, pr_ub r) = (POutOfFuel, false, 6, 10) /\
-    par_chk Z.eqb (cfgR 7) 12 2 None [0;0;0;0;0;0;0; 0;1; 0;1; 1]%nat = false.
+    (pr_end r, pr_exact r, pr_lb r, pr_ub r) = (POutOfFuel, false, 6, IMAX) /\
+    let r := par_maximize Z.eqb (cfgR 7) 200 2 2 None [0;0;0;0;0;0;0; 0;1; 0;1; 1]%nat in
+    (pr_end r, pr_exact r, pr_lb r, pr_ub r) = (PFinished, false, 6, IMAX).
   Proof. vm_compute. split; reflexivity. Qed.
 
-  (* hence the conclusion of C05_parallel_anytime does NOT follow from the hypotheses of section Storey2 alone ... *)
-  Theorem C05_parallel_anytime_unconditional_refuted :
-    ~ (forall T primal fuel sched, (1 <= T)%nat -> primal_okP (sfeasible pbR) primal ->
-         let r := par_maximize Z.eqb (cfgR 7) fuel T T primal sched in
-         pr_end r = PFinished -> forall o, opt_enum pbR = Some o -> o <= pr_ub r).
+  (* the theorem applies: every run of this configuration has sound bounds (here: 6 <= 15 <= best_ub) *)
+  Theorem residual_by_theorem : forall T fuel sched, (1 <= T)%nat ->
+    let r := par_maximize Z.eqb (cfgR 7) fuel T T None sched in
+    pr_crash r = false /\ pr_lb r <= 15 <= pr_ub r.
   Proof.
-    intros Hall.
-    assert (Hp : primal_okP (sfeasible pbR) None) by (intros pv psol E; discriminate).
-    assert (He : pr_end (par_maximize Z.eqb (cfgR 7) 200 2 2 None schedR) = PFinished) by (vm_compute; reflexivity).
-    pose proof (Hall 2%nat None 200%nat schedR (le_S _ _ (le_n 1)) Hp He 15 residual_opt) as H.
-    assert (Hu : pr_ub (par_maximize Z.eqb (cfgR 7) 200 2 2 None schedR) = 10) by (vm_compute; reflexivity).
-    rewrite Hu in H. lia.
-  Qed.
-
-  (* ... and the extra contract KC3_lt is exactly what this configuration lacks *)
-  Corollary residual_not_KC3_lt : ~ KC3_lt Z.eqb (cfgR 7) (sgood pbR).
-  Proof.
-    intros HLt. apply C05_parallel_anytime_unconditional_refuted. intros T primal fuel sched HT Hp r He o Ho.
+    intros T fuel sched HT r.
     destruct (residual_premises 7) as (P1 & P2 & P3 & P4 & P5 & P6 & P7 & P8 & P9 & P10 & P12 & P13).
-    destruct (C05_parallel_anytime_lt Z.eqb P1 (cfgR 7) P2 P3 P4 P5 P6 P7 P8 P9 P10 100 P12 P13 T primal fuel sched HLt HT Hp He)
-      as (_ & _ & A3 & _).
-    apply (A3 o Ho).
+    assert (Hp : primal_okP (sfeasible pbR) None) by (intros pv psol E; discriminate).
+    destruct (C05_parallel_anytime_any_end Z.eqb P1 (cfgR 7) P2 P3 P4 P5 P6 P7 P8 P9 P10 100 P12 P13 T None fuel sched HT Hp)
+      as (A1 & _ & A3 & _).
+    split; [exact A1|exact (A3 15 residual_opt)].
   Qed.
 End Residual.
 
@@ -1659,18 +1294,13 @@ Print Assumptions step_ubs.
 Print Assumptions step_ainv.
 Print Assumptions par_anytime_sound.
 Print Assumptions par_anytime_sound_any_end.
-Print Assumptions par_anytime_sound_checked.
-Print Assumptions par_anytime_sound_checked_any_end.
 Print Assumptions C05_parallel_anytime.
 Print Assumptions C05_parallel_anytime_any_end.
-Print Assumptions C05_parallel_anytime_lt.
-Print Assumptions C05_parallel_anytime_lt_any_end.
 Print Assumptions C05_parallel_table_instances.
 Print Assumptions ex3_two_workers_at_abort.
 Print Assumptions ex3_by_theorem.
 Print Assumptions ex3_out_of_fuel.
 Print Assumptions ex_ti_abort.
 Print Assumptions Residual.residual_premises.
-Print Assumptions Residual.residual_unsound.
-Print Assumptions Residual.C05_parallel_anytime_unconditional_refuted.
-Print Assumptions Residual.residual_not_KC3_lt.
+Print Assumptions Residual.residual_regression.
+Print Assumptions Residual.residual_by_theorem.
